@@ -30,6 +30,12 @@ Theorem C20_rows_join_by_uid : forall j, NoDup (map jt_uid j) -> forall t, In t 
 Proof. exact stop_rows_join. Qed.
 Print Assumptions C20_rows_join_by_uid.
 
+(* ... in particular for every journal BuildJournal can return: any history of feeds, any window *)
+Theorem C20_built_journal_rows_join : forall feeds a b t, In t (build_journal feeds a b) ->
+  filter (key_is (jt_uid t)) (stop_rows (build_journal feeds a b)) = map (stop_cells (jt_uid t)) (jt_stops t).
+Proof. exact journal_export_join. Qed.
+Print Assumptions C20_built_journal_rows_join.
+
 (* the values: every integer cell (Unix seconds, counters) reads back as the number; absent optionals are empty cells;
    direction is 0 / 1 / blank; strings are verbatim by definition of trip_cells / stop_cells *)
 Theorem C20_integers_read_back : forall z, read_Z (show_Z z) = z.
